@@ -238,7 +238,9 @@ pub fn random_def(rng: &mut Rng, name: &str, conflicts: bool, many_tokens: bool)
     let mut skips = Vec::new();
     let mut kept = Vec::new();
     for p in pats {
-        if p.cb == Cb::Skip && p.attr == "regex" && rng.chance(1, 2) {
+        // (not with `ignore(case)`: logos accepts that flag on an enum-level skip but does not apply it — a C10 matter;
+        // C07 does not quantify over it, and the reference model would describe a different language)
+        if p.cb == Cb::Skip && p.attr == "regex" && p.extra.is_empty() && rng.chance(1, 2) {
             skips.push((p.lit, p.prio, p.extra));
         } else {
             kept.push(p);
